@@ -125,11 +125,26 @@ def run_faults(cfg, out, props=None, tag="C05", profiles_pool=None, extra=None):
         r = rng(tag, *key)
         mtu = r.choice(MTUS_QUICK) if r.random() < 0.5 else 1500
         dt = r.choice([1 / 60, 1 / 60, 1 / 30, 1 / 120])
-        with T.Run(r, mtu=mtu, dt=dt, jitter=r.choice([0.0, 0.2]),
-                   ctxt_setup=lambda ctxt: ctxt.setConnectionTimeout(30.0)) as run:
+        # configurations: defaults mostly; sometimes other keep-alive (= resend) intervals and message timeouts,
+        # including a keep-alive interval LONGER than the message timeout
+        conf = r.choice([None, None, (0.5, 0.3), (2.0, 1.0), (0.1, 0.05), (0.25, 2.0), (1.0, 0.5)])
+
+        def setup(ctxt, conf=conf):
+            ctxt.setConnectionTimeout(30.0)
+            if conf:
+                ctxt.setKeepAliveInterval(conf[0])
+                ctxt.setMessageTimeout(conf[1])
+        with T.Run(r, mtu=mtu, dt=dt, jitter=r.choice([0.0, 0.2]), ctxt_setup=setup) as run:
             w = run.world
             w.net.heal(0.004)
-            c = w.connect_client()
+            c = w.add_client()
+            if conf:
+                c.udp.setKeepAliveInterval(conf[0])
+                c.udp.setMessageTimeout(conf[1])
+                run.c.inc("worlds_with_non_default_intervals")
+                if conf[0] > conf[1]:
+                    run.c.inc("worlds_keep_alive_longer_than_message_timeout")
+            c = w.connect_client(c)
             c.updates_per_step = r.choice([1, 2, 2])
             run.report.context = {"case_key": key, "mtu": mtu, "client_updates_per_tick": c.updates_per_step}
             P = run.C.Packet
@@ -159,6 +174,32 @@ def run_faults(cfg, out, props=None, tag="C05", profiles_pool=None, extra=None):
                         w.step()
                     w.net.filters.remove(f)
                 total += 1
+            # --- a BEST_EFFORT fragmented message over a slow link (round trip > resend interval, several copies of a
+            #     fragment in flight) while the first copies of ONE fragment are lost: success may only be reported
+            #     once the peer holds the whole message
+            if run.open(c) and not conf:
+                side = r.choice(["client", "server"])
+                ep = c if side == "client" else run.sconn(c)
+                w.net.set(c2s=L.Policy(delay=(0.12, 0.2)), s2c=L.Policy(delay=(0.12, 0.2)))
+                rec = run.app.send(ep, side, P.MAX_FRAGMENT_SIZE * r.randint(2, 4) + r.randint(1, 300), 1, with_cb=True)
+                if rec.get("nmsgs"):
+                    victim = (rec["msgseq_first"] - 1 + r.randrange(rec["nmsgs"])) % 65535 + 1
+
+                    class FirstCopies(KthLoss):
+                        def __call__(self, direction, addr, datagram, info):
+                            if direction == self.direction and self.seen < self.k:
+                                dec = L.decode_datagram(datagram, self.conn.session_key_bytes)
+                                if dec.ok and any(sq in self.msgseqs for sq, t, p in dec.msgs):
+                                    self.seen += 1
+                                    return "drop"
+                            return None
+                    f = FirstCopies(run, rec["conn"], [victim], r.randint(2, 5), "c2s" if side == "client" else "s2c")
+                    w.net.filters.append(f)
+                    w.step(int(2.5 / w.dt))
+                    w.net.filters.remove(f)
+                    run.c.inc("best_effort_fragment_scenarios")
+                w.net.heal(0.004)
+                w.step(20)
             # --- a guaranteed message whose first carrying datagrams are lost while a burst of > 256 newer messages
             #     from the same sender gets through before the retransmission (the 256-message window moves past it)
             for _ in range(2):
@@ -228,7 +269,8 @@ def finish(tier, seed, results):
     inconclusive = []
     need(m["counters"], ["guaranteed_sends", "guaranteed_delivered", "sizes_tried", "targeted_data_drops", "targeted_ack_drops",
                          "runs_connection_open", "delivered_to_server", "delivered_to_client", "net_lost_c2s", "net_lost_s2c",
-                         "net_duplicated_c2s", "net_reordered_s2c", "burst_after_loss_scenarios"], inconclusive)
+                         "net_duplicated_c2s", "net_reordered_s2c", "burst_after_loss_scenarios", "best_effort_fragment_scenarios",
+                         "worlds_keep_alive_longer_than_message_timeout"], inconclusive)
     cov = {
         "evaluations": m["evaluations"],
         "distinct_nontrivial": m["distinct_nontrivial"],
